@@ -1,7 +1,8 @@
 (* C09 — the loop shapes of the ACL filters compute List.filter (for every predicate, every
    list): the in-place deletion walk, the range/append loop, the span compaction of
    FilterEntries, and the map loops (for every visiting order). *)
-From Verif Require Import Base.Prelude Filter.Model.
+From Verif Require Import Base.Prelude.
+From Verif Require Import Filter.Model.
 From Coq Require Import Permutation.
 
 (* ------------------------------------------------------------------------------------ *)
@@ -50,6 +51,20 @@ Section ListFacts.
     - apply IH.
   Qed.
 
+  Lemma skipn_skipn : forall (x y : nat) (l : list A), skipn x (skipn y l) = skipn (x + y) l.
+  Proof.
+    intros x y; revert x. induction y as [|y IH]; intros x l.
+    - rewrite Nat.add_0_r. reflexivity.
+    - rewrite Nat.add_succ_r. destruct l as [|a l]; [destruct x; reflexivity|]. cbn. apply IH.
+  Qed.
+
+  Lemma flat_map_ext_in {B : Type} (f g : A -> list B) : forall l,
+    (forall x, In x l -> f x = g x) -> flat_map f l = flat_map g l.
+  Proof.
+    induction l as [|x l IH]; intros H; cbn; [reflexivity|].
+    rewrite (H x (or_introl eq_refl)), IH; [reflexivity|]. intros y Hy. apply H. right. exact Hy.
+  Qed.
+
   Lemma filter_filter : forall (p q : A -> bool) l,
     filter p (filter q l) = filter (fun x => q x && p x) l.
   Proof.
@@ -96,7 +111,7 @@ Section Inplace.
 
   Lemma set_at_length : forall (s : list A) i x, i < List.length s -> List.length (set_at i x s) = List.length s.
   Proof.
-    intros s i x H. unfold set_at. rewrite app_length, firstn_length. cbn. rewrite skipn_length. lia.
+    intros s i x H. unfold set_at. rewrite app_length, firstn_length. cbn [List.length]. rewrite skipn_length. lia.
   Qed.
 
   Lemma set_at_firstn_S : forall (s : list A) i x, i < List.length s -> firstn (S i) (set_at i x s) = firstn i s ++ [x].
@@ -222,14 +237,14 @@ Section CompactProofs.
     /\ (scan p fuel i n < n -> p (scan p fuel i n) = false).
   Proof.
     induction fuel as [|fuel IH]; intros i n Hi Hf; cbn [scan].
-    - assert (i = n) by lia. subst. repeat split; try lia. intros; lia.
+    - assert (i = n) by lia. subst. repeat split; intros; lia.
     - destruct (i <? n) eqn:L; cbn [andb].
       + apply Nat.ltb_lt in L. destruct (p i) eqn:P.
         * destruct (IH (S i) n) as (H1 & H2 & H3); [lia|lia|].
           repeat split; try lia; [|exact H3].
           intros k Hk. destruct (Nat.eq_dec k i) as [->|]; [exact P|]. apply H2. lia.
-        * repeat split; try lia. intros; lia. intros _. exact P.
-      + apply Nat.ltb_ge in L. repeat split; try lia. intros; lia.
+        * repeat split; intros; try lia. exact P.
+      + apply Nat.ltb_ge in L. repeat split; intros; lia.
   Qed.
 
   Lemma filt_at_agree : forall (a a0 : list A) src i,
@@ -249,8 +264,8 @@ Section CompactProofs.
     destruct (nth_error a0 i) as [x|] eqn:E.
     - rewrite (nth_error_skipn_cons _ _ _ E). cbn [firstn filter].
       assert (Hx : filt_at filtered a0 i = true) by (apply H; lia).
-      unfold filt_at in Hx. rewrite E in Hx. unfold keep. rewrite Hx. cbn.
-      apply IH. intros k Hk. apply H. lia.
+      unfold filt_at in Hx. rewrite E in Hx. unfold keep. rewrite Hx. cbn [negb].
+      apply (IH (S i)). intros k Hk. apply H. lia.
     - apply nth_error_None_ge in E. rewrite skipn_ge_nil by lia. destruct d; reflexivity.
   Qed.
 
@@ -263,8 +278,8 @@ Section CompactProofs.
     destruct (nth_error a0 i) as [x|] eqn:E.
     - rewrite (nth_error_skipn_cons _ _ _ E). cbn [firstn filter].
       assert (Hx : filt_at filtered a0 i = false) by (apply H; lia).
-      unfold filt_at in Hx. rewrite E in Hx. unfold keep. rewrite Hx. cbn.
-      f_equal. apply IH. intros k Hk. apply H. lia.
+      unfold filt_at in Hx. rewrite E in Hx. unfold keep. rewrite Hx. cbn [negb].
+      f_equal. apply (IH (S i)). intros k Hk. apply H. lia.
     - apply nth_error_None_ge in E. rewrite skipn_ge_nil by lia. destruct d; reflexivity.
   Qed.
 
@@ -447,6 +462,14 @@ Section MapProofs.
     - apply IH. intros Hin. apply H. right. exact Hin.
   Qed.
 
+  Lemma upd_entry_cons (tr : string * V -> option V) : forall k v ord k1 v1,
+    upd_entry tr ((k, v) :: ord) (k1, v1)
+    = if String.eqb k k1 then match tr (k, v) with None => [] | Some v' => [(k1, v')] end
+      else upd_entry tr ord (k1, v1).
+  Proof.
+    intros. unfold upd_entry, key_is. cbn [fst find]. destruct (String.eqb k k1); reflexivity.
+  Qed.
+
   Lemma upd_loop_gen (tr : string * V -> option V) : forall ord m,
     NoDup (map fst ord) -> upd_loop tr ord m = flat_map (upd_entry tr ord) m.
   Proof.
@@ -455,20 +478,15 @@ Section MapProofs.
     - cbn in Hnd. inversion Hnd as [|? ? Hnin Hnd']; subst. cbn [upd_loop fst].
       destruct (tr (k, v)) as [v'|] eqn:T; rewrite IH by assumption.
       + unfold map_set. rewrite flat_map_concat_map, map_map, <- flat_map_concat_map.
-        apply flat_map_ext. intros [k1 v1]. unfold upd_entry. cbn [fst find].
-        unfold key_is at 2. cbn [fst].
+        apply flat_map_ext. intros [k1 v1]. rewrite upd_entry_cons, T. cbn [fst].
         rewrite (String.eqb_sym k k1).
-        destruct (String.eqb k1 k) eqn:E.
-        * apply String.eqb_eq in E. subst k1. cbn [fst]. rewrite T.
-          rewrite (find_key_none ord k Hnin). reflexivity.
-        * cbn [fst]. reflexivity.
+        destruct (String.eqb k1 k) eqn:E; [|reflexivity].
+        apply String.eqb_eq in E. subst k1.
+        unfold upd_entry. cbn [fst]. rewrite (find_key_none ord k Hnin). reflexivity.
       + unfold map_delete.
         induction m as [|[k1 v1] m IHm]; [reflexivity|]. cbn [filter flat_map fst].
-        unfold upd_entry at 2. cbn [fst find]. unfold key_is at 2. cbn [fst].
-        rewrite (String.eqb_sym k k1).
-        destruct (String.eqb k1 k) eqn:E; cbn [negb].
-        * rewrite T. cbn [app]. exact IHm.
-        * cbn [flat_map]. rewrite IHm. reflexivity.
+        rewrite upd_entry_cons, T, <- IHm. rewrite (String.eqb_sym k k1).
+        destruct (String.eqb k1 k); reflexivity.
   Qed.
 
   Lemma find_key_self : forall ord k v, NoDup (map fst ord) -> In (k, v) ord -> find (key_is k) ord = Some (k, v).
